@@ -20,6 +20,7 @@ EXPLANATION = (
     " (R8) sibling partitions of Value::size_of/write_le/compile_const and ValueKind::align are frozen; (R9) constant decoders advance the cursor after a nested decode by the re-serialised length of the decoded item; (R10) every ValueKind variant that emitted constants carry has a reader arm for its tag rebuilding the same variant from the same field layout (branch-aware); (R11) every Value variant whose payload Value::write_le emits is rebuilt by Value::from_le; (R12) result provenance: every value returned by an evaluator that expression()/structure()/literal() dispatches to is the out() of a plan step or the value of a sub-evaluator (greatest fixpoint over the evaluators) - otherwise compile() emits nothing for it and run_program returns the previous step's value."
     ' (R5, extended) the two encoders of a type write the same FIELD at each position; (R13) no function of the function crates is unconditionally self-recursive; (R14) Value::compile_const ends in an Err for the variants it does not encode and no compile_const result is unwrapped.'
     ' (R15) discriminant tables: the numeric tag each TypeTag/ValueKind/opcode writer emits is the tag the matching reader arm accepts for that same variant (writer table = reader table, no two variants swapped).'
+    ' (R16) kind ladders over Value::Matrix<K> / Value::<K> whose catch-all arm panics name every element kind the Value enum has; (R17) constant codecs agree field by field: the named fields ConstElem::write_le writes are read by from_le and written by CompileConst::compile_const in the same order and width.'
 )
 
 EVALUATORS = {
